@@ -8,21 +8,21 @@ Local Open Scope string_scope.
 Lemma touch_a_maps_disc s' s : Forall (fun a => disciplined a = true) (touch_a_maps s' s).
 Proof. unfold touch_a_maps. apply Forall_app_iff; split; apply wr_disc. Qed.
 
-Lemma trace_own_disc has cp {A} (p : prog A) : forall priv s, Forall (fun a => disciplined a = true) (trace_own has cp priv p s).
+Lemma trace_own_disc has deep cp {A} (p : prog A) : forall priv s, Forall (fun a => disciplined a = true) (trace_own has deep cp priv p s).
 Proof.
   induction p as [a|c k IH|o p IH]; intros priv s; cbn.
   - constructor.
   - destruct (exec c s) as [s' r]. apply Forall_app_iff. split; [apply call_accesses_disc|apply IH].
   - destruct o as [x|g|c].
     + destruct (find _ priv).
-      * apply Forall_app_iff. split; [apply touch_a_maps_disc|apply IH].
+      * apply Forall_app_iff. split; [destruct deep; [constructor|apply touch_a_maps_disc]|apply IH].
       * apply Forall_app_iff. split; [apply (touch_accesses_disc (OA x))|apply IH].
     + apply Forall_app_iff. split; [apply (touch_accesses_disc (OG g))|apply IH].
     + apply Forall_app_iff. split; [apply (touch_accesses_disc (OC c))|apply IH].
 Qed.
 
 (* ---- a handler that copies nothing: trace_own is Access.trace ---- *)
-Lemma trace_own_nothing has {A} (p : prog A) : forall s, trace_own has nothing_copied [] p s = trace has p s.
+Lemma trace_own_nothing has deep {A} (p : prog A) : forall s, trace_own has deep nothing_copied [] p s = trace has p s.
 Proof.
   induction p as [a|c k IH|o p IH]; intros s; cbn [trace_own trace].
   - reflexivity.
@@ -52,8 +52,9 @@ Definition own_cells : list (profile * string) :=
   [(POpenID, "code"); (POpenID, "code id_token"); (POpenID, "id_token"); (POpenID, "token"); (POpenID, "code token");
    (PFapi1, "code id_token"); (PFapi2, "code")].
 
-Definition own_trace (cp : call -> bool) (s : racescn) : list access :=
-  let su := setup_of s in trace_own no_jwks_uri cp [] (race_prog su 0) (su_store su).
+(* deep = true: the tree with fix e2b7ce4 (the copy clones the maps); deep = false: the shallow copy before it *)
+Definition own_trace (deep : bool) (cp : call -> bool) (s : racescn) : list access :=
+  let su := setup_of s in trace_own no_jwks_uri deep cp [] (race_prog su 0) (su_store su).
 (* the pushed request is accepted and the authorization request reaches the policy *)
 Definition own_live (s : racescn) : bool :=
   let su := setup_of s in
@@ -65,34 +66,43 @@ Definition own_live (s : racescn) : bool :=
 Definition for_cells (f : racescn -> bool) : bool :=
   forallb (fun c => forallb (fun pol => f (own_scn (fst c) (snd c) pol)) own_pols) own_cells.
 
-Lemma own_cells_live : for_cells own_live = true.
-Proof. vm_compute. reflexivity. Qed.
-(* with the copy: no scalar member of a session is written in shared memory *)
-Lemma own_scalar_private : for_cells (fun s => match scalar_session_writes (own_trace par_copied s) with [] => true | _ => false end) = true.
-Proof. vm_compute. reflexivity. Qed.
-(* ... and what IS written are the shared maps, by these two sites *)
-Definition map_sites : list string := [gapi ++ "StoreParameter[initAuth]"; gapi ++ "SetIDTokenClaim[initAuth]"].
-Lemma own_map_writes : for_cells (fun s => forallb (fun x => andb (mem (fst x) map_sites) (is_map_member (snd x)))
-                                                   (session_writes (own_trace par_copied s))) = true.
-Proof. vm_compute. reflexivity. Qed.
-(* every request that reaches the policy writes the nonce claim into the shared map *)
-Lemma own_nonce_written : for_cells (fun s => existsb (fun x => seqb (fst x) (gapi ++ "SetIDTokenClaim[initAuth]"))
-                                                     (session_writes (own_trace par_copied s))) = true.
-Proof. vm_compute. reflexivity. Qed.
-
-(* without the copy (under a FAPI profile: what returning the stored session does): scalar members of the
-   STORED session are written with no lock, and these writes race with the index scan of any other request *)
-Definition other_scan (s : racescn) : list access :=
+(* the index scans of any other request *)
+Definition other_scan_of (s : racescn) : list access :=
   call_accesses no_jwks_uri (AByPar 999) (su_store (setup_of s)) ++ call_accesses no_jwks_uri (AByCode 998) (su_store (setup_of s))
   ++ call_accesses no_jwks_uri (AByCb 997) (su_store (setup_of s)).
+Definition other_scan := other_scan_of.
+Lemma own_cells_live : for_cells own_live = true.
+Proof. vm_compute. reflexivity. Qed.
+(* with the deep copy: NO member of a session is written in shared memory, no race with the scans of other requests,
+   and two such requests (same request_uri) do not race with each other *)
+Lemma own_private : for_cells (fun s => match session_writes (own_trace true par_copied s) with [] => true | _ => false end) = true.
+Proof. vm_compute. reflexivity. Qed.
+Lemma copy_no_race_with_scans : for_cells (fun s => negb (some_race (own_trace true par_copied s) (other_scan_of s))) = true.
+Proof. vm_compute. reflexivity. Qed.
+Lemma deep_copy_no_self_race : for_cells (fun s => negb (some_race (own_trace true par_copied s) (own_trace true par_copied s))) = true.
+Proof. vm_compute. reflexivity. Qed.
+
+(* with a SHALLOW copy (before fix e2b7ce4, defect D24): no scalar member is written ... *)
+Lemma shallow_scalar_private : for_cells (fun s => match scalar_session_writes (own_trace false par_copied s) with [] => true | _ => false end) = true.
+Proof. vm_compute. reflexivity. Qed.
+(* ... but the shared maps are, by these two sites *)
+Definition map_sites : list string := [gapi ++ "StoreParameter[initAuth]"; gapi ++ "SetIDTokenClaim[initAuth]"].
+Lemma shallow_map_writes : for_cells (fun s => forallb (fun x => andb (mem (fst x) map_sites) (is_map_member (snd x)))
+                                                   (session_writes (own_trace false par_copied s))) = true.
+Proof. vm_compute. reflexivity. Qed.
+(* every request that reaches the policy writes the nonce claim into the shared map, so two requests presenting the
+   same request_uri race with each other *)
+Lemma shallow_nonce_written : for_cells (fun s => existsb (fun x => seqb (fst x) (gapi ++ "SetIDTokenClaim[initAuth]"))
+                                                     (session_writes (own_trace false par_copied s))) = true.
+Proof. vm_compute. reflexivity. Qed.
+Lemma shallow_copy_races : for_cells (fun s => some_race (own_trace false par_copied s) (own_trace false par_copied s)) = true.
+Proof. vm_compute. reflexivity. Qed.
+
+(* without any copy (under a FAPI profile: what returning the stored session does): scalar members of the
+   STORED session are written with no lock, and these writes race with the index scan of any other request *)
 Lemma no_copy_writes_stored :
-  for_cells (fun s => andb (existsb (fun x => seqb (fst x) "internal/authorize.initAuthnSession") (scalar_session_writes (own_trace nothing_copied s)))
-                           (some_race (own_trace nothing_copied s) (other_scan s))) = true.
-Proof. vm_compute. reflexivity. Qed.
-Lemma copy_no_race_with_scans : for_cells (fun s => negb (some_race (own_trace par_copied s) (other_scan s))) = true.
-Proof. vm_compute. reflexivity. Qed.
-(* K20a: two requests presenting the same request_uri race on the shared maps *)
-Lemma shallow_copy_races : for_cells (fun s => some_race (own_trace par_copied s) (own_trace par_copied s)) = true.
+  for_cells (fun s => andb (existsb (fun x => seqb (fst x) "internal/authorize.initAuthnSession") (scalar_session_writes (own_trace true nothing_copied s)))
+                           (some_race (own_trace true nothing_copied s) (other_scan_of s))) = true.
 Proof. vm_compute. reflexivity. Qed.
 
 Lemma for_cells_spec f : for_cells f = true ->
